@@ -47,6 +47,24 @@ Theorem C20_rejected_not_invoked :
     serve f c lookup0 media_ok post_ok body <> Invoked.
 Proof. exact rejected_not_invoked. Qed.
 
+(* Permissions are checked against the store as it is NOW: after any history of permission changes and
+   requests, a user who at that moment holds neither a required permission p nor ego.root does not reach
+   the handler of a (non-lightweight) route requiring p - with a correct password or a cached token -
+   however the user's permissions looked earlier in the history. *)
+Theorem C20_revoked_not_invoked :
+  forall s0 h f u tk ps p,
+    lightweight f = false -> perms f = Some ps -> In p ps ->
+    memN p (perms_of (store_after s0 h) u) = false ->
+    memN ROOT (perms_of (store_after s0 h) u) = false ->
+    exists r, run_store s0 (h ++ [Request f u tk]) = run_store s0 h ++ [r] /\ r <> Invoked.
+Proof. exact revoked_not_invoked. Qed.
+
+Example C20_revocation_nonvacuous :
+  let f := build [Permissions [1]] in
+  run_store [] [SetPerms 7 [LOGON; 1]; Request f 7 false; Request f 7 true; SetPerms 7 [LOGON]; Request f 7 false; Request f 7 true]
+  = [Invoked; Invoked; Status 403; Status 403].
+Proof. reflexivity. Qed.
+
 (* Builder: a declaration that never calls Authentication(false) or LightWeight(true) yields safe
    flags, and must-authenticate whenever Authentication(true) or Permissions(..) was called -
    whatever the order of the calls. *)
